@@ -46,10 +46,15 @@ struct Gen { std::vector<std::pair<uint64_t, uint64_t> > entries; };
 static std::vector<Gen> *g_gens = NULL;
 static int g_first_data_fd = -1;                // the Sort's data_ temp while BlockSorter's output is being spilled
 static std::vector<uint64_t> *g_spill = NULL;   // sizes of the write() calls of WriteAndRecycle to it
+// all data temps: sizes of the write() calls, one list per "generation" (creation or truncation to 0)
+static int g_dgen_of_fd[kMaxFd];
+static std::vector<std::vector<uint64_t> > *g_dgens = NULL;
 
 static void ObserveReset() {
   pthread_mutex_lock(&g_mu);
-  for (int i = 0; i < kMaxFd; ++i) { g_role[i] = 0; g_gen_of_fd[i] = -1; }
+  for (int i = 0; i < kMaxFd; ++i) { g_role[i] = 0; g_gen_of_fd[i] = -1; g_dgen_of_fd[i] = -1; }
+  if (!g_dgens) g_dgens = new std::vector<std::vector<uint64_t> >();
+  g_dgens->clear();
   g_temp_count = 0;
   if (!g_gens) g_gens = new std::vector<Gen>();
   g_gens->clear();
@@ -70,6 +75,7 @@ static int TempCommon(const char *sym, char *tmpl) {
     g_role[fd] = (g_temp_count % 2 == 0) ? 1 : 2;
     if (g_temp_count == 0) g_first_data_fd = fd;
     g_gen_of_fd[fd] = -1;
+    g_dgen_of_fd[fd] = -1;
     ++g_temp_count;
   }
   pthread_mutex_unlock(&g_mu);
@@ -82,6 +88,7 @@ static int TruncCommon(int fd, off_t len) {
   pthread_mutex_lock(&g_mu);
   if (g_observe && fd >= 0 && fd < kMaxFd && g_role[fd] == 2 && len == 0) g_gen_of_fd[fd] = -1;
   if (g_observe && fd == g_first_data_fd) g_first_data_fd = -1;   // reused as a pass output from now on
+  if (g_observe && fd >= 0 && fd < kMaxFd && g_role[fd] == 1 && len == 0) g_dgen_of_fd[fd] = -1;
   pthread_mutex_unlock(&g_mu);
   return (int)syscall(SYS_ftruncate, fd, len);
 }
@@ -94,6 +101,12 @@ extern "C" ssize_t write(int fd, const void *buf, size_t count) {
     uint64_t e[2];
     memcpy(e, buf, 16);
     (*g_gens)[g_gen_of_fd[fd]].entries.push_back(std::make_pair(e[0], e[1]));
+    pthread_mutex_unlock(&g_mu);
+  }
+  if (g_observe && fd >= 0 && fd < kMaxFd && g_role[fd] == 1) {
+    pthread_mutex_lock(&g_mu);
+    if (g_dgen_of_fd[fd] < 0) { g_dgens->push_back(std::vector<uint64_t>()); g_dgen_of_fd[fd] = (int)g_dgens->size() - 1; }
+    (*g_dgens)[g_dgen_of_fd[fd]].push_back(count);
     pthread_mutex_unlock(&g_mu);
   }
   if (g_observe && fd >= 0 && fd == g_first_data_fd) {
@@ -303,6 +316,14 @@ template <class Compare, class Combine> static void RunAndReport(const Case &c, 
     uint64_t sh = kFnvOff;
     for (std::size_t i = 0; i < g_spill->size(); ++i) { uint64_t v = (*g_spill)[i]; sh = Fnv(sh, reinterpret_cast<const uint8_t*>(&v), 8); }
     std::cout << " spill=" << g_spill->size() << ":" << sh;
+    // every data file ever written (spill + one per pass): the sizes of all write() calls
+    uint64_t dh = kFnvOff;
+    for (std::size_t g = 0; g < g_dgens->size(); ++g) {
+      for (std::size_t i = 0; i < (*g_dgens)[g].size(); ++i) { uint64_t v = (*g_dgens)[g][i]; dh = Fnv(dh, reinterpret_cast<const uint8_t*>(&v), 8); }
+      uint8_t sep = 0xAA;
+      dh = Fnv(dh, &sep, 1);
+    }
+    std::cout << " dwrites=" << g_dgens->size() << ":" << dh;
   }
   // invariant of the output blocks, checked here directly: every ValidSize is a multiple of the entry size
   std::cout << " oblocks=" << g_oblocks << " logshow=" << lshow.str() << std::endl;
